@@ -34,6 +34,7 @@ def accesses(body):
     out = []
     holder = {}      # local -> static path (address holders)
     meta = {}
+    tls = set()      # statics reached through a thread-local address: one copy per thread
     # pass 1: direct holders
     changed = True
     rounds = 0
@@ -60,6 +61,7 @@ def accesses(body):
                 elif rv["k"] == "tlsref":
                     src = rv["static"]
                     meta[src] = True
+                    tls.add(src)
                 if src is not None and holder.get(s["place"]["l"]) != src:
                     holder[s["place"]["l"]] = src
                     changed = True
@@ -79,7 +81,8 @@ def accesses(body):
             if rv["k"] in ("ref", "rawptr") and rv["place"]["l"] in holder and rv["place"]["p"] == ["deref"]:
                 # taking a reference to the static's value (for atomics this is the normal receiver)
                 out.append({"static": holder[rv["place"]["l"]], "kind": "ref", "bb": i, "line": s["line"], "atomic": False,
-                            "mutable_ref": rv.get("bk") == "mut" or "Mut" in rv.get("pk", "")})
+                            "mutable_ref": rv.get("bk") == "mut" or "Mut" in rv.get("pk", ""),
+                            "dest": s["place"]["l"] if not s["place"]["p"] else None})
             if rv["k"] == "discriminant" and rv["place"]["l"] in holder:
                 out.append({"static": holder[rv["place"]["l"]], "kind": "read", "bb": i, "line": s["line"], "atomic": False})
         t = blk["term"]
@@ -102,8 +105,51 @@ def accesses(body):
                     out.append({"static": holder[a["place"]["l"]], "kind": "read", "bb": i, "line": t["line"], "atomic": False})
     for a in out:
         a["static_mut"] = meta.get(a["static"], False)
-    # drop "ref" entries that merely feed an atomic call recorded separately
+        a["thread_local"] = a["static"] in tls
+    # a shared reference that is only ever the receiver of atomic calls (each recorded separately as a read / write of
+    # the static) adds nothing of its own
+    for a in out:
+        if a["kind"] == "ref" and not a["mutable_ref"] and a.get("dest") is not None:
+            a["feeds_only_atomic"] = _only_atomic_receiver(body, a["dest"])
     return out
+
+
+def _mentions_local(j, l):
+    if isinstance(j, dict):
+        if j.get("l") == l and "p" in j:
+            return True
+        return any(_mentions_local(v, l) for v in j.values())
+    if isinstance(j, list):
+        return any(_mentions_local(v, l) for v in j)
+    return False
+
+
+def _only_atomic_receiver(body, l):
+    defs = 0
+    for blk in body.blocks:
+        for s in blk["stmts"]:
+            if s["k"] != "assign":
+                if s["k"] not in ("storage_live", "storage_dead", "nop") and _mentions_local(s, l):
+                    return False
+                continue
+            if s["place"]["l"] == l and not s["place"]["p"]:
+                defs += 1
+                continue
+            if _mentions_local(s, l):
+                return False
+        t = blk["term"]
+        if t["k"] == "call":
+            nm = t["callee"].get("resolved") or t["callee"].get("path") or ""
+            if _mentions_local(t.get("args", []), l):
+                if "sync::atomic" not in nm:
+                    return False
+                if not all(a["k"] in ("copy", "move") and not a["place"]["p"] for a in t["args"] if _mentions_local(a, l)):
+                    return False
+            if _mentions_local(t.get("dest", {}), l) or _mentions_local(t["callee"], l):
+                return False
+        elif _mentions_local(t, l):
+            return False
+    return defs == 1
 
 
 def must_write(prog, cg):
